@@ -89,6 +89,9 @@ func runC03(p *chk.Prog, r *chk.Report) {
 	c03Rehome(p, r)
 	c03Unassign(p, r)
 	c03Write(p, r)
+	// re-adoption judges sharing with the same symmetric test that admitted the co-tenants: a holder is evicted on its
+	// next sync when a newcomer was admitted by a laxer comparison than the one the holder is then judged by
+	c01ShareOK(p, r)
 	// restart and failed-write stability (rules shared with C06): the recorded
 	// addresses are re-adopted, assigned services first, before any per-service
 	// event is handled, and a failed status write leaves the allocator's memory alone
@@ -327,6 +330,16 @@ func c03Rehome(p *chk.Prog, r *chk.Report) {
 		return chk.InBody(rs, n) && f.MatchWith("RECV.Unassign(K)", asExpr(n), chk.H("K", svcK)) != nil
 	})
 	x.Check("SetPools:unassign-sites", rs.Pos(), len(uns) == 2, "", "expected the drop site and the re-home site")
+	// every allocation is judged again by poolFor (all its addresses, buggy-address avoidance included): no iteration
+	// ends on a weaker test
+	judged := chk.GEvent(f.ContainsPat("poolFor(RECV.pools.ByName, AL.ips)", chk.H("AL", al)))
+	okAll := !loopHasBreak(g, rs)
+	for _, e := range g.LoopIteration(rs, judged) {
+		if !e.OK {
+			okAll = false
+		}
+	}
+	x.Check("SetPools:every-allocation-revalidated", rs.Pos(), okAll, "", "an allocation can be kept without poolFor being asked whether a pool still owns all its addresses (a shrunk pool or newly avoided .0/.255 address keeps its allocation; counters go negative, released addresses stay reserved)")
 	gone := g.GPat(true, "P == nil", chk.H("P", pool))
 	renamed := g.GPat(true, "P.Name != AL.pool", chk.H("P", pool), chk.H("AL", al))
 	for _, u := range uns {
